@@ -81,3 +81,197 @@ Definition walk_table_failures (sch : schema_t) (w : list (string * wbody)) : li
                               (combine l want)
                   | _ => false
                   end) sch).
+
+(* ================= printer programs ================= *)
+From Verif Require Import Tree.Printer.
+
+Fixpoint fields_s (e : sexp) : list string :=
+  match e with
+  | SLit _ | SVar _ | SBad => []
+  | SCat a b => fields_s a ++ fields_s b
+  | SFieldSQL f | SFieldStr f | SParen _ f | SQuote _ f | SBool _ f => [f]
+  | SOpt l f r => fields_s l ++ f :: fields_s r
+  | SJoin f sep => f :: fields_s sep
+  | SStrOpt c s => fields_b c ++ fields_s s
+  | SIfElse c a b => fields_b c ++ fields_s a ++ fields_s b
+  end
+with fields_b (e : bexp) : list string :=
+  match e with
+  | BTrue | BVar _ => []
+  | BNot b => fields_b b
+  | BAnd a b | BOr a b => fields_b a ++ fields_b b
+  | BField f | BPosInvalid f | BLen _ f _ | BNil f | BIsType f _ => [f]
+  | BHasPrefix a b | BEqS a b => fields_s a ++ fields_s b
+  end.
+
+Fixpoint fields_body (b : pbody) : list string :=
+  match b with
+  | BRet s => fields_s s
+  | BLetS _ s k => fields_s s ++ fields_body k
+  | BLetB _ c k => fields_b c ++ fields_body k
+  | BLetP k => fields_body k
+  | BIf c a k => fields_b c ++ fields_body a ++ fields_body k
+  | BOpaque => []
+  end.
+
+(* fields read by the hand-modelled bodies *)
+Definition special_fields (ty : string) : list string :=
+  if String.eqb ty "BadNode" then ["Tokens"]
+  else if String.eqb ty "OptionsDef" then ["Name"; "Value"]
+  else if String.eqb ty "ChangeStreamForTables" then ["Tables"]
+  else [].
+
+Definition used_fields (prog : list (string * pbody)) (ty : string) : list string :=
+  match assoc ty prog with
+  | Some BOpaque => special_fields ty
+  | Some b => fields_body b
+  | None => []
+  end.
+
+(* does the self precedence (the Op field of Binary/UnaryExpr) count as read?  exprPrec(recv) reads it *)
+Fixpoint uses_self_prec (b : pbody) : bool :=
+  match b with BLetP _ => true | BLetS _ _ k | BLetB _ _ k => uses_self_prec k | BIf _ a k => uses_self_prec a || uses_self_prec k | _ => false end.
+
+(* fields that carry no information of their own; each entry is justified in DESIGN.md *)
+Definition derived_fields : list (string * string) :=
+  [ ("IntLiteral", "Base")                  (* a function of Value: 16 iff Value spells 0x.., else 10 *)
+  ; ("SetNoSkipRange", "NoSkipRange")       (* required marker child without content *)
+  ; ("BadQueryExpr", "Hint")                (* never populated by any construction site *)
+  ; ("BadNode", "NodePos"); ("BadNode", "NodeEnd") ].
+
+Definition is_derived (ty f : string) : bool :=
+  existsb (fun '(t, g) => String.eqb t ty && String.eqb g f) derived_fields.
+
+(* every field that is not a bare position must be read by SQL() *)
+Definition unread_fields (sch : schema_t) (prog : list (string * pbody)) : list (string * string) :=
+  flat_map (fun '(ty, fds) =>
+              let used := used_fields prog ty in
+              flat_map (fun '(f, k) =>
+                          match k with
+                          | KPos => []
+                          | _ => if mem f used || is_derived ty f then [] else [(ty, f)]
+                          end) fds) sch.
+
+(* position fields read through validity (e.g. AsAlias.As decides whether "AS" is printed) are reported, not required *)
+
+(* every separator of a list contains a byte that cannot continue a token on either side:
+   blank, newline, comma, dot, or any punctuation that is a token by itself *)
+Definition separating_byte (b : byte) : bool :=
+  negb (is_ident_part b) && negb (beq b x22) && negb (beq b x27) && negb (beq b x60) && negb (beq b x2d) && negb (beq b x2f) && negb (beq b x23).
+
+Fixpoint sep_lits (e : sexp) : list sexp :=
+  match e with
+  | SJoin _ sep => [sep]
+  | SCat a b => sep_lits a ++ sep_lits b
+  | SOpt l _ r => sep_lits l ++ sep_lits r
+  | SStrOpt _ s => sep_lits s
+  | SIfElse _ a b => sep_lits a ++ sep_lits b
+  | _ => []
+  end.
+Fixpoint sep_body (b : pbody) : list sexp :=
+  match b with
+  | BRet s => sep_lits s
+  | BLetS _ s k => sep_lits s ++ sep_body k
+  | BLetB _ _ k | BLetP k => sep_body k
+  | BIf _ a k => sep_body a ++ sep_body k
+  | BOpaque => []
+  end.
+(* the first literal piece of a separator expression must start or end with a separating byte *)
+Fixpoint sep_ok (e : sexp) : bool :=
+  match e with
+  | SLit b => existsb separating_byte b
+  | SCat a b => sep_ok a || sep_ok b
+  | _ => false
+  end.
+Definition bad_separators (prog : list (string * pbody)) : list string :=
+  flat_map (fun '(ty, b) => if forallb sep_ok (sep_body b) then [] else [ty]) prog.
+
+(* kinds: every field a program reads exists in the struct and has the kind the construct needs *)
+Section ProgWf.
+  Variable ifs : ifaces_t.
+  Variable fds : list (string * fkind).
+  Definition fk (f : string) : option fkind := assoc f fds.
+  Definition is_str f := match fk f with Some KStr => true | _ => false end.
+  Definition is_node f := match fk f with Some (KNode _ _) => true | _ => false end.
+  Definition is_nodes f := match fk f with Some (KNodes _ _) => true | _ => false end.
+  Definition is_bool f := match fk f with Some KBool => true | _ => false end.
+  Definition is_pos f := match fk f with Some KPos => true | _ => false end.
+  Definition is_expr_node f := match fk f with Some (KNode tg true) => String.eqb tg "Expr" | _ => false end.
+  Definition has_len f := match fk f with Some (KNodes _ _) | Some KStr | Some KToks => true | _ => false end.
+
+  Fixpoint wf_s (sv bv : list string) (e : sexp) : bool :=
+    match e with
+    | SLit _ => true
+    | SCat a b => wf_s sv bv a && wf_s sv bv b
+    | SVar x => mem x sv
+    | SFieldSQL f => is_node f
+    | SFieldStr f => is_str f
+    | SOpt l f r => wf_s sv bv l && is_node f && wf_s sv bv r
+    | SJoin f sep => is_nodes f && wf_s sv bv sep
+    | SStrOpt c s => wf_b sv bv c && wf_s sv bv s
+    | SIfElse c a b => wf_b sv bv c && wf_s sv bv a && wf_s sv bv b
+    | SParen _ f => is_expr_node f
+    | SQuote _ f => is_str f
+    | SBool _ f => is_bool f
+    | SBad => false
+    end
+  with wf_b (sv bv : list string) (e : bexp) : bool :=
+    match e with
+    | BTrue => true
+    | BVar x => mem x bv
+    | BNot b => wf_b sv bv b
+    | BAnd a b | BOr a b => wf_b sv bv a && wf_b sv bv b
+    | BField f => is_bool f
+    | BPosInvalid f => is_pos f
+    | BHasPrefix a b | BEqS a b => wf_s sv bv a && wf_s sv bv b
+    | BLen _ f _ => has_len f
+    | BNil f | BIsType f _ => is_node f
+    end.
+  Fixpoint wf_body (sv bv : list string) (b : pbody) : bool :=
+    match b with
+    | BRet s => wf_s sv bv s
+    | BLetS x s k => wf_s sv bv s && wf_body (x :: sv) bv k
+    | BLetB x c k => wf_b sv bv c && wf_body sv (x :: bv) k
+    | BLetP k => wf_body sv bv k
+    | BIf c a k => wf_b sv bv c && wf_body sv bv a && wf_body sv bv k
+    | BOpaque => true
+    end.
+End ProgWf.
+
+Definition printer_ok (sch : schema_t) (ifs : ifaces_t) (prog : list (string * pbody)) (ptab : list (string * prec_rule)) : bool :=
+  (* one program per node type, nothing else; opaque exactly where a hand model exists; kinds fit *)
+  forallb (fun '(ty, fds) =>
+             match assoc ty prog with
+             | Some BOpaque => mem ty hand_modelled
+             | Some b => negb (mem ty hand_modelled) && wf_body fds [] [] b
+             | None => false
+             end) sch
+  && (length prog =? length sch)%nat && nodup_names (map fst prog)
+  (* exprPrec knows every implementer of Expr *)
+  && match assoc "Expr" ifs with
+     | Some impls => forallb (fun ty => match assoc ty ptab with Some (PrFixed _) => true | Some (PrByField f _) =>
+                                          match assoc ty sch with Some fds => is_str fds f | None => false end | _ => false end) impls
+     | None => false
+     end
+  && forallb (fun '(ty, _) => match assoc "Expr" ifs with Some impls => mem ty impls | None => false end) ptab.
+
+Definition prec_missing (ifs : ifaces_t) (ptab : list (string * prec_rule)) : list string :=
+  match assoc "Expr" ifs with
+  | Some impls => filter (fun ty => match assoc ty ptab with Some (PrFixed _) | Some (PrByField _ _) => false | _ => true end) impls
+  | None => ["?Expr"]
+  end.
+Definition printer_failures (sch : schema_t) (prog : list (string * pbody)) : list string :=
+  map fst (filter (fun '(ty, fds) =>
+             negb match assoc ty prog with
+                  | Some BOpaque => mem ty hand_modelled
+                  | Some b => negb (mem ty hand_modelled) && wf_body fds [] [] b
+                  | None => false
+                  end) sch).
+
+Definition pair_mem (x : string * string) (l : list (string * string)) : bool :=
+  existsb (fun '(t, g) => String.eqb t (fst x) && String.eqb g (snd x)) l.
+Lemma pair_mem_in x l : pair_mem x l = true -> In x l.
+Proof.
+  unfold pair_mem. intros H. apply existsb_exists in H as ([t g] & HI & E).
+  apply andb_true_iff in E as [E1 E2]. apply String.eqb_eq in E1, E2. destruct x; cbn in *; subst. exact HI.
+Qed.
